@@ -12,6 +12,7 @@ Rules
          mistaken for an offset; created/modified carry xsi:type="dcterms:W3CDTF"; an offset `+hh:mm` is subtracted and
          `-hh:mm` added (equivalent UTC); the offset pattern's width equals the length the reader tests
   R18.4  revision: anything but an int >= 1 raises ValueError before the element is created; the reader yields an int
+  R18.5  a package without core properties gains a related default part on first access (shared with C16 R16.4)
   (datetime arithmetic at the ends of the range, years below 1000, save/re-open identity: not decided)
 """
 
@@ -208,7 +209,8 @@ def run(ctx):
     vname = sst.node.args.args[2].arg
 
     def len_test(t):
-        return isinstance(t, ast.Compare) and isinstance(t.left, ast.Call) and dotted(t.left.func) == "len" and dotted(t.left.args[0]) == vname
+        return isinstance(t, ast.Compare) and isinstance(t.left, ast.Call) and dotted(t.left.func) == "len" and any(
+            isinstance(x, ast.Name) and x.id == vname for x in ast.walk(t.left.args[0]))
 
     gi, exc = _guard(body, len_test)
     mi = _first_mutation_index(body)
@@ -224,7 +226,11 @@ def run(ctx):
                   for st in body[:gi if gi is not None else 0])
     stores = any(isinstance(x, ast.Assign) and any(isinstance(t, ast.Attribute) and t.attr == "text" for t in x.targets) and dotted(x.value) == vname
                  for x in ast.walk(sst.node))
-    if gi is not None and mi is not None and gi < mi and exc == "ValueError" and bound == 255 and stores:
+    measured = ast.unparse(body[gi].test.left.args[0]) if gi is not None else None
+    if gi is not None and measured != vname:
+        ctx.violation("R18.2", "_set_element_text", "the 255 limit is applied to len(%s), not to the number of characters of the string: strings of up "
+                      "to 255 characters can be refused (or longer ones accepted)" % measured, file=sst.file, line=sst.line)
+    elif gi is not None and mi is not None and gi < mi and exc == "ValueError" and bound == 255 and stores:
         ctx.ok("R18.2", "_set_element_text", sample={"accepts": "len <= 255", "refuses": "ValueError before the element is created", "str()": coerced})
     else:
         ctx.violation("R18.2", "_set_element_text", "string limit is not `len > 255 -> ValueError` before any mutation (guard@%s mutation@%s exc=%s "
@@ -353,31 +359,88 @@ def run(ctx):
     else:
         ctx.violation("R18.3", "xsi:type", "dcterms:created / dcterms:modified are not written with xsi:type=\"dcterms:W3CDTF\" (found %s): the part "
                       "is invalid against opc-coreProperties.xsd" % (tagged,), file=sdt.file, line=sdt.line)
-    # offsets
-    sign_ok = False
-    for x in ast.walk(off.node):
-        if isinstance(x, ast.IfExp) and isinstance(x.test, ast.Compare) and isinstance(x.test.ops[0], ast.Eq):
-            lit = prog.const(x.test.comparators[0], off.module)
-            a, b = prog.const(x.body, off.module), prog.const(x.orelse, off.module)
-            if lit == "+" and (a, b) == (-1, 1):
-                sign_ok = True
-            if lit == "-" and (a, b) == (1, -1):
-                sign_ok = True
-    applies = False
-    both = set()
-    for x in ast.walk(off.node):
-        if isinstance(x, ast.Assign) and isinstance(x.value, ast.BinOp) and isinstance(x.value.op, ast.Mult):
-            both.add(x.targets[0].id)
-        if isinstance(x, ast.Return) and isinstance(x.value, ast.BinOp) and isinstance(x.value.op, ast.Add):
-            applies = True
-    td_ok = any(isinstance(x, ast.Call) and dotted(x.func) in ("dt.timedelta", "timedelta") and {k.arg for k in x.keywords} == {"hours", "minutes"}
-                and all(dotted(k.value) == k.arg for k in x.keywords) for x in ast.walk(off.node))
+    # offsets: evaluate the correction applied to the timestamp under each sign, in minutes, as a polynomial in H (hours
+    # field) and M (minutes field); expected -(60H + M) for '+', +(60H + M) for '-'
+    from sa.poly import Poly
+
+    def offset_minutes(sign_char):
+        env = {}
+        signvar = None
+        for st in off.node.body:
+            if isinstance(st, ast.Assign) and isinstance(st.targets[0], ast.Tuple) and isinstance(st.value, ast.Call) \
+                    and (dotted(st.value.func) or "").endswith(".groups"):
+                names = [e.id for e in st.targets[0].elts]
+                if len(names) == 3:
+                    signvar = names[0]
+                    env[names[1]] = ("str", "H")
+                    env[names[2]] = ("str", "M")
+
+        def ev(e):
+            if isinstance(e, ast.IfExp) and isinstance(e.test, ast.Compare) and dotted(e.test.left) == signvar \
+                    and isinstance(e.test.ops[0], (ast.Eq, ast.NotEq)):
+                lit = prog.const(e.test.comparators[0], off.module)
+                truth = (lit == sign_char) if isinstance(e.test.ops[0], ast.Eq) else (lit != sign_char)
+                return ev(e.body if truth else e.orelse)
+            if isinstance(e, ast.Call) and dotted(e.func) == "int" and isinstance(e.args[0], ast.Name) and isinstance(env.get(e.args[0].id), tuple):
+                return Poly.sym(env[e.args[0].id][1])
+            if isinstance(e, ast.Name):
+                v = env.get(e.id)
+                if isinstance(v, Poly):
+                    return v
+                raise ValueError("name %s" % e.id)
+            if isinstance(e, ast.Constant) and isinstance(e.value, int):
+                return Poly.const(e.value)
+            if isinstance(e, ast.UnaryOp) and isinstance(e.op, ast.USub):
+                return -ev(e.operand)
+            if isinstance(e, ast.BinOp) and isinstance(e.op, (ast.Add, ast.Sub, ast.Mult)):
+                l, r = ev(e.left), ev(e.right)
+                return l + r if isinstance(e.op, ast.Add) else l - r if isinstance(e.op, ast.Sub) else l * r
+            if isinstance(e, ast.Call) and dotted(e.func) in ("dt.timedelta", "timedelta", "datetime.timedelta"):
+                tot = Poly()
+                for k in e.keywords:
+                    f_ = {"hours": 60, "minutes": 1, "days": 1440}.get(k.arg)
+                    if f_ is None:
+                        raise ValueError("timedelta(%s=)" % k.arg)
+                    tot = tot + Poly.const(f_) * ev(k.value)
+                if e.args:
+                    raise ValueError("positional timedelta arguments")
+                return tot
+            raise ValueError("expression `%s`" % ast.unparse(e))
+
+        if signvar is None:
+            raise ValueError("sign, hours, minutes = match.groups() not found")
+        for st in off.node.body:
+            if isinstance(st, ast.Assign) and isinstance(st.targets[0], ast.Name):
+                try:
+                    env[st.targets[0].id] = ev(st.value)
+                except ValueError:
+                    env.pop(st.targets[0].id, None)  # not a number (e.g. the match object); an error if it is used later
+            elif isinstance(st, ast.If):
+                # `if sign == "+": ... else: ...` blocks of plain assignments
+                t = st.test
+                if isinstance(t, ast.Compare) and dotted(t.left) == signvar and isinstance(t.ops[0], (ast.Eq, ast.NotEq)):
+                    lit = prog.const(t.comparators[0], off.module)
+                    truth = (lit == sign_char) if isinstance(t.ops[0], ast.Eq) else (lit != sign_char)
+                    for s2 in (st.body if truth else st.orelse):
+                        if isinstance(s2, ast.Assign) and isinstance(s2.targets[0], ast.Name):
+                            env[s2.targets[0].id] = ev(s2.value)
+            elif isinstance(st, ast.Return):
+                r = st.value
+                dparam = off.node.args.args[1].arg
+                if isinstance(r, ast.BinOp) and isinstance(r.op, (ast.Add, ast.Sub)) and dotted(r.left) == dparam:
+                    d = ev(r.right)
+                    return d if isinstance(r.op, ast.Add) else -d
+                if isinstance(r, ast.BinOp) and isinstance(r.op, ast.Add) and dotted(r.right) == dparam:
+                    return ev(r.left)
+                raise ValueError("return `%s`" % ast.unparse(r))
+        raise ValueError("no return")
+
+    total = Poly.const(60) * Poly.sym("H") + Poly.sym("M")
     pat = None
-    pm = el.module
     for stn in el.node.body:
         if isinstance(stn, ast.Assign) and isinstance(stn.targets[0], ast.Name) and stn.targets[0].id == "_offset_pattern" \
                 and isinstance(stn.value, ast.Call) and stn.value.args:
-            pat = prog.const(stn.value.args[0], pm)
+            pat = prog.const(stn.value.args[0], el.module)
     width = None
     if isinstance(pat, str):
         try:
@@ -387,11 +450,22 @@ def run(ctx):
             width = lo if lo == hi else None
         except Exception:
             width = None
-    if sign_ok and applies and td_ok and both == {"hours", "minutes"} and width == off_len:
-        ctx.ok("R18.3", "_offset_dt", sample={"+hh:mm": "subtracted", "-hh:mm": "added", "pattern_width": width, "reader_tests_len": off_len})
-    else:
-        ctx.violation("R18.3", "_offset_dt", "offset is not converted to the equivalent UTC time (sign %s, applied to hours and minutes %s, timedelta %s, "
-                      "pattern width %s vs tested length %s)" % (sign_ok, sorted(both), td_ok, width, off_len), file=off.file, line=off.line)
+    try:
+        plus, minus = offset_minutes("+"), offset_minutes("-")
+        probs = []
+        if plus != -total:
+            probs.append("for `+hh:mm` the timestamp is shifted by %r minutes, expected %r" % (plus, -total))
+        if minus != total:
+            probs.append("for `-hh:mm` the timestamp is shifted by %r minutes, expected %r" % (minus, total))
+        if width != off_len:
+            probs.append("offset pattern width %s differs from the length %s the reader tests" % (width, off_len))
+        if probs:
+            ctx.violation("R18.3", "_offset_dt", "offset is not converted to the equivalent UTC time: " + "; ".join(probs) + " (H, M = hours and "
+                          "minutes fields)", file=off.file, line=off.line)
+        else:
+            ctx.ok("R18.3", "_offset_dt", sample={"+hh:mm": repr(plus) + " minutes", "-hh:mm": repr(minus) + " minutes", "pattern_width": width})
+    except ValueError as e:
+        ctx.error("CT_CoreProperties._offset_dt", "offset conversion not decoded: %s" % e)
 
     # -- R18.4 -------------------------------------------------------------------------------------------
     ctx.rule("R18.4", "revision: only int >= 1 accepted (ValueError otherwise, before mutation); reader yields an int")
@@ -429,3 +503,27 @@ def run(ctx):
         ctx.ok("R18.4", "revision_number.getter", sample={"returns": "int(text) or 0"})
     else:
         ctx.violation("R18.4", "revision_number.getter", "revision reader does not return an int", file=rg.file, line=rg.line)
+
+
+    # -- R18.5 -------------------------------------------------------------------------------------------
+    from checks.c16 import core_properties_default_rule
+
+    ctx.rule("R18.5", "a package without core properties gains a related default part on first access (so assigned values are saved)")
+    core_properties_default_rule(ctx, prog, "R18.5")
+    dflt = part.methods.get("default")
+    newf = part.methods.get("_new")
+    good = False
+    if dflt is not None and newf is not None:
+        uses_new = any(isinstance(c, ast.Call) and dotted(c.func) == "cls._new" for c in ast.walk(dflt.node))
+        ret = [n.value for n in walk_own(dflt.node) if isinstance(n, ast.Return)]
+        ctor = [c for c in ast.walk(newf.node) if isinstance(c, ast.Call) and dotted(c.func) in ("CorePropertiesPart", "cls")]
+        ct_ok = False
+        for c in ctor:
+            args = [ast.unparse(a) for a in c.args]
+            ct_ok = len(args) >= 4 and "core.xml" in args[0] and args[1] == "CT.OPC_CORE_PROPERTIES" and "new_coreProperties" in args[3]
+        good = uses_new and bool(ret) and ct_ok
+    if good:
+        ctx.ok("R18.5", "CorePropertiesPart.default", sample={"partname": "/docProps/core.xml", "content_type": "CT.OPC_CORE_PROPERTIES", "element": "new cp:coreProperties"})
+    else:
+        ctx.violation("R18.5", "CorePropertiesPart.default", "the default part is not a /docProps/core.xml part of the core-properties content type "
+                      "around a new cp:coreProperties element", file=part.file, line=dflt.line if dflt else part.line)
